@@ -444,6 +444,28 @@ Section Time.
     destruct (eject_loop_spec _ _ _ _ _ _ T) as [H1 _]. rewrite <- H1. apply in_map_iff. exists (t, tr). split; [reflexivity|exact Hl].
   Qed.
 
+  (* C03: a trace leaves the buffer only through a tick at or after its deadline, or through an ejection *)
+  Theorem leaves_only_when_due w o w' evs t tr :
+    step w o = Some (w', evs) -> alookup t (w_buf w) = Some tr -> alookup t (w_buf w') = None ->
+    (exists now ch, o = OTick now ch /\ In t ch /\ t_sendby tr <= now) \/ (exists bytes ch, o = OEject bytes ch /\ In t ch).
+  Proof.
+    intros H Hl Hn. destruct o as [now s|now ch|bytes ch|c|t0]; cbn [Collector.step] in H.
+    - exfalso. injection H as E. assert (Hw : w' = fst (Collector.step_span dry w now s)) by (rewrite E; reflexivity).
+      subst w'. unfold Collector.step_span in Hn.
+      destruct (alookup (s_tid s) (w_buf w)) eqn:L; cbn [fst set_buf w_buf] in Hn.
+      + rewrite lk_aset in Hn. destruct (N.eqb t (s_tid s)); congruence.
+      + destruct (alookup (s_tid s) (w_dec w)); cbn [fst set_buf w_buf] in Hn; [congruence|].
+        rewrite lk_aset in Hn. destruct (N.eqb t (s_tid s)); congruence.
+    - left. exists now, ch. split; [reflexivity|]. destruct (tick_spec _ _ _ _ _ H) as [Hb [Htaken _]].
+      destruct (in_dec N.eq_dec t ch) as [Hin|Hnin].
+      + split; [exact Hin|]. destruct (Htaken t Hin) as [tr' [Ha [Hb' _]]]. congruence.
+      + rewrite Hb, alookup_remove_all_notin in Hn by exact Hnin. congruence.
+    - right. exists bytes, ch. split; [reflexivity|]. destruct (eject_spec _ _ _ _ _ H) as [l [_ [Hb [_ [_ [_ [_ Hun]]]]]]].
+      destruct (in_dec N.eq_dec t ch) as [Hin|Hnin]; [exact Hin|]. rewrite (Hun t Hnin) in Hn. congruence.
+    - exfalso. injection H as <- _. cbn [w_buf] in Hn. congruence.
+    - exfalso. injection H as <- _. cbn [w_buf] in Hn. congruence.
+  Qed.
+
   (* ================= reachable states keep distinct buffer keys ================= *)
   Lemma step_nodup w o w' evs : NoDup (akeys (w_buf w)) -> step w o = Some (w', evs) -> NoDup (akeys (w_buf w')).
   Proof.
